@@ -391,7 +391,7 @@ PROPS["C13"] = {
 PROPS["C18"] = {
     "props": "Failsafe.Props.C18", "ties": ["Failsafe.Tie.Adapters"],
     "kernels": ["http_retry_handle", "http_delay_func", "grpc_retry_handle"],
-    "facts": ["grpcRetryableCodes", "httpRetryBuilderChain", "grpcRetryBuilderChain", "httpRegexes",
+    "facts": ["httpReleaseOnBodyClose", "httpClosesPreviousResponse", "grpcRetryableCodes", "httpRetryBuilderChain", "grpcRetryBuilderChain", "httpRegexes",
               "bodies/http:.doRequest", "bodies/http:.bodyReader", "bodies/http:cancelOnCloseBody.Close", "bodies/http:roundTripper.RoundTrip", "bodies/http:Request.Do",
               "bodies/util:.MergeContexts", "bodies/client:.NewUnaryClientInterceptorWithExecutor", "bodies/server:.NewUnaryServerInterceptorWithExecutor"],
     "required_theorems": [
@@ -402,6 +402,7 @@ PROPS["C18"] = {
         "Failsafe.Props.C18.attempt_ctx_carries_caller_values", "Failsafe.Props.C18.attempt_ctx_carries_caller_deadline",
         "Failsafe.Props.C18.attempt_ctx_done_when_caller_done", "Failsafe.Props.C18.attempt_ctx_done_when_exec_done", "Failsafe.Props.C18.attempt_ctx_done_only_if",
         "Failsafe.Props.C18.grpc_retryable_iff", "Failsafe.Props.C18.generated_grpc_retryable_iff", "Failsafe.Props.C18.grpc_next_attempt_iff", "Failsafe.Props.C18.grpc_returned_is_last",
+        "Failsafe.Props.C18.returned_body_readable", "Failsafe.Props.C18.body_unreadable_witness", "Failsafe.Props.C18.http_release_shape",
         "Failsafe.Tie.Adapters.tie_retryHandle", "Failsafe.Tie.Adapters.tie_delayFn", "Failsafe.Tie.Adapters.tie_grpcHandle", "Failsafe.Tie.Adapters.grpc_table",
     ],
     "diff": [{"slice": "adapters", "n_quick": 160, "n_thorough": 1600, "seeds_thorough": 3, "n_search": 800, "par": 8}],
@@ -423,7 +424,7 @@ PROPS["C18"] = {
                  "gRPC argument / reply / error pass-through is observed by DIFF (interceptor body facts), not a theorem",
                  "hedged attempts with a seekable stream body share the reader: open known finding D9 (witness replayed on every run)"],
     "manifest": {
-        "text": "Lean 4 theorems over the adapter models: a response is retried iff its status is 429 or >= 500 and not 501, an error iff it is not one of the documented terminal errors (proved about the predicate regenerated from failsafehttp/policy.go); DelayFunc yields Retry-After seconds exactly for 429/503 with an integer header and the scheduled retry delay is then at least that long; the retry loop over any server script makes attempt j+1 iff all earlier attempts were retryable and not aborted and the budget allows, never more than maxRetries+1, and returns the last attempt's result (ExceededError only when the budget is used up); every body kind, content, hand-over offset and number of sequential attempts replays exactly the bytes a plain request would have sent; buffered bodies are independent under any interleaving of concurrent attempts (seekable streams are not: witness, known finding D9); the merged context carries the caller's values and deadline and is done iff the caller's, the execution's or its own release fires; the gRPC policy retries exactly Unavailable / DeadlineExceeded / ResourceExhausted (table extracted from the source). Tie: GEN for the three predicates (Generated = Model proved each run), FACTS (builder chains, regexes, code table, bodies of doRequest / bodyReader / MergeContexts / interceptors), DIFF end to end against a loopback server and fake invoker / handler.",
+        "text": "Lean 4 theorems over the adapter models: a response is retried iff its status is 429 or >= 500 and not 501, an error iff it is not one of the documented terminal errors (proved about the predicate regenerated from failsafehttp/policy.go); DelayFunc yields Retry-After seconds exactly for 429/503 with an integer header and the scheduled retry delay is then at least that long; the retry loop over any server script makes attempt j+1 iff all earlier attempts were retryable and not aborted and the budget allows, never more than maxRetries+1, and returns the last attempt's result (ExceededError only when the budget is used up); every body kind, content, hand-over offset and number of sequential attempts replays exactly the bytes a plain request would have sent; buffered bodies are independent under any interleaving of concurrent attempts (seekable streams are not: witness, known finding D9); the response of the last attempt is open and readable after any sequence of attempts (its per-attempt context is released only when its body is closed: shape from FACTS; witness for the release-on-return shape); the merged context carries the caller's values and deadline and is done iff the caller's, the execution's or its own release fires; the gRPC policy retries exactly Unavailable / DeadlineExceeded / ResourceExhausted (table extracted from the source). Tie: GEN for the three predicates (Generated = Model proved each run), FACTS (builder chains, regexes, code table, bodies of doRequest / bodyReader / MergeContexts / interceptors), DIFF end to end against a loopback server and fake invoker / handler.",
         "note": "Trusted: Lean kernel; translator + schema; fact extractor; harness and its loopback server. Partial: net/http, grpc-go and context propagation are modelled; request fidelity (method, URL, headers) and gRPC pass-through are validated by DIFF and body facts rather than proved; hedge + seekable body is an open known finding.",
         "technique": "Lean 4 proof (truth tables of the regenerated predicates, induction over the retry loop and over attempts, invariants over interleavings of reads, context algebra) + regenerated-kernel tie + structural facts + differential correspondence end to end"},
 }
